@@ -285,7 +285,7 @@ func checkFile(path string, head hist.File, obs []Obs, base *hist.File, basePath
 }
 
 type verdict struct {
-	outside, crossedIn, crossedBack int
+	outside, crossedIn int
 
 	nontrivial bool
 	changed    int
@@ -326,12 +326,6 @@ func oracle(h hist.History, flt *Filter, observed map[string][]Obs, rx relax) (v
 			renames = true
 		}
 		if tr.CameIn {
-			if tr.Origins[0].Path != "" {
-				// inside -> outside -> inside again at its old path: the documentation does not say
-				// what such a file is compared with; nothing is demanded
-				v.crossedBack++
-				continue
-			}
 			// renamed into the parser filter on the branch: as far as pint is concerned the file is new,
 			// or renamed if the rename is followed - either way every rule of it is a changed rule
 			for i, r := range rules {
@@ -838,7 +832,6 @@ func TestPropHistory(t *testing.T) {
 		if c.Filter != nil {
 			rec.Count("filter:head_files_outside", int64(v.outside))
 			rec.Count("filter:head_files_that_came_into_the_filter", int64(v.crossedIn))
-			rec.Count("filter:head_files_inside_outside_inside", int64(v.crossedBack))
 		}
 		if err != nil {
 			if id, ok := known[class]; ok && class != "" {
